@@ -79,12 +79,45 @@ Qed.
 
 (* ---- the slice at x ------------------------------------------------------------------- *)
 
+(* interval predicates "covers position x" / "covers x and y": both are multiplicative under
+   intersection and imply non-emptiness, which is all the slice construction needs *)
+Definition cov1 (x l r : Z) : bool := (l <=? x) && (x <? r).
+Definition cov2 (x y l r : Z) : bool := cov1 x l r && cov1 y l r.
+
+Lemma cov1_inter x l0 r0 l1 r1 : cov1 x (Z.max l0 l1) (Z.min r0 r1) = cov1 x l0 r0 && cov1 x l1 r1.
+Proof.
+  unfold cov1.
+  destruct (l0 <=? x) eqn:A; destruct (l1 <=? x) eqn:B; destruct (x <? r0) eqn:C; destruct (x <? r1) eqn:D;
+    destruct (Z.max l0 l1 <=? x) eqn:E; destruct (x <? Z.min r0 r1) eqn:F; cbn [andb]; try reflexivity;
+    repeat match goal with
+           | H : (_ <=? _) = true |- _ => apply Z.leb_le in H
+           | H : (_ <=? _) = false |- _ => apply Z.leb_gt in H
+           | H : (_ <? _) = true |- _ => apply Z.ltb_lt in H
+           | H : (_ <? _) = false |- _ => apply Z.ltb_ge in H
+           end; lia.
+Qed.
+
+Lemma cov1_nonempty x l r : cov1 x l r = true -> l < r.
+Proof. unfold cov1. intros H. apply andb_true_iff in H as [A B]. apply Z.leb_le in A. apply Z.ltb_lt in B. lia. Qed.
+
+Lemma cov2_inter x y l0 r0 l1 r1 : cov2 x y (Z.max l0 l1) (Z.min r0 r1) = cov2 x y l0 r0 && cov2 x y l1 r1.
+Proof.
+  unfold cov2. rewrite !cov1_inter.
+  destruct (cov1 x l0 r0), (cov1 x l1 r1), (cov1 y l0 r0), (cov1 y l1 r1); reflexivity.
+Qed.
+
+Lemma cov2_nonempty x y l r : cov2 x y l r = true -> l < r.
+Proof. unfold cov2. intros H. apply andb_true_iff in H as [A _]. eapply cov1_nonempty; eauto. Qed.
+
 Section Slice.
-  Variables (between : bool) (ssid times : list Z) (x : Z).
+  Variables (between : bool) (ssid times : list Z) (cov : Z -> Z -> bool).
+  Hypothesis cov_inter : forall l0 r0 l1 r1, cov (Z.max l0 l1) (Z.min r0 r1) = cov l0 r0 && cov l1 r1.
+  Hypothesis cov_nonempty : forall l r, cov l r = true -> l < r.
 
   Definition PU : params := mkParams 0 None between ssid times.
 
-  Definition covx (s : seg) : bool := (seg_left s <=? x) && (x <? seg_right s).
+  Definition covx (s : seg) : bool := cov (seg_left s) (seg_right s).
+  Definition cvE (e : edge) : bool := cov (eleft e) (eright e).
   Definition Dx (l : list seg) : list Z := map seg_node (filter covx l).
   Definition DX (A : amap) : list (list Z) := map Dx A.
 
@@ -105,7 +138,7 @@ Section Slice.
   Definition astep (e : edge) (D : list (list Z)) : res (list (list Z) * list arecord) :=
     do dc <- get D (echild e);
     do dp <- get D (eparent e);
-    if covers e x then
+    if cvE e then
       do D' <- set D (eparent e) (dp ++ dc); Ok (D', arec (eparent e) dp dc)
     else Ok (D, []).
 
@@ -115,50 +148,39 @@ Section Slice.
     | e :: t => do r <- astep e D; do r' <- arun t (fst r); Ok (fst r', snd r ++ snd r')
     end.
 
-  (* ---- intersections and x -------------------------------------------------------------- *)
+  (* ---- intersections ---------------------------------------------------------------------- *)
 
   Lemma covx_inter l0 r0 n0 l1 r1 n1 p :
     covx (Z.max l0 l1, Z.min r0 r1, p) = covx (l0, r0, n0) && covx (l1, r1, n1).
-  Proof.
-    unfold covx, seg_left, seg_right; cbn [fst snd].
-    destruct (l0 <=? x) eqn:A; destruct (l1 <=? x) eqn:B; destruct (x <? r0) eqn:C; destruct (x <? r1) eqn:D;
-      destruct (Z.max l0 l1 <=? x) eqn:E; destruct (x <? Z.min r0 r1) eqn:F; cbn [andb]; try reflexivity;
-      repeat match goal with
-             | H : (_ <=? _) = true |- _ => apply Z.leb_le in H
-             | H : (_ <=? _) = false |- _ => apply Z.leb_gt in H
-             | H : (_ <? _) = true |- _ => apply Z.ltb_lt in H
-             | H : (_ <? _) = false |- _ => apply Z.ltb_ge in H
-             end; lia.
-  Qed.
+  Proof. unfold covx, seg_left, seg_right; cbn [fst snd]. apply cov_inter. Qed.
 
   Lemma Dx_enqueue e s :
-    Dx (enqueue 0 (eleft e) (eright e) s) = if covers e x && covx s then [seg_node s] else [].
+    Dx (enqueue 0 (eleft e) (eright e) s) = if cvE e && covx s then [seg_node s] else [].
   Proof.
     unfold enqueue, Dx. destruct s as [[l r] n]. unfold seg_left, seg_right, seg_node; cbn [fst snd].
     pose proof (covx_inter (eleft e) (eright e) 0 l r n n) as Hc.
-    assert (Hce : covx (eleft e, eright e, 0) = covers e x) by reflexivity. rewrite Hce in Hc.
+    assert (Hce : covx (eleft e, eright e, 0) = cvE e) by reflexivity. rewrite Hce in Hc.
     destruct (0 <? 2 * (Z.min (eright e) r - Z.max (eleft e) l)) eqn:E.
-    - cbn [filter]. rewrite Hc. destruct (covers e x && covx (l, r, n)); reflexivity.
+    - cbn [filter]. rewrite Hc. destruct (cvE e && covx (l, r, n)); reflexivity.
     - cbn [filter map]. rewrite <- Hc. apply Z.ltb_ge in E.
-      unfold covx, seg_left, seg_right; cbn [fst snd].
-      destruct (Z.max (eleft e) l <=? x) eqn:A; destruct (x <? Z.min (eright e) r) eqn:B; cbn [andb]; try reflexivity.
-      apply Z.leb_le in A. apply Z.ltb_lt in B. lia.
+      destruct (covx (Z.max (eleft e) l, Z.min (eright e) r, n)) eqn:C; [|reflexivity].
+      unfold covx, seg_left, seg_right in C; cbn [fst snd] in C. apply cov_nonempty in C. lia.
   Qed.
 
   Lemma Dx_app l1 l2 : Dx (l1 ++ l2) = Dx l1 ++ Dx l2.
   Proof. unfold Dx. rewrite filter_app, map_app. reflexivity. Qed.
 
-  Lemma Dx_queue e cs : Dx (queue_of 0 e cs) = if covers e x then Dx cs else [].
+  Lemma Dx_queue e cs : Dx (queue_of 0 e cs) = if cvE e then Dx cs else [].
   Proof.
     unfold queue_of. induction cs as [|s t IH]; cbn [flat_map].
-    - destruct (covers e x); reflexivity.
-    - rewrite Dx_app, IH, Dx_enqueue. destruct (covers e x); cbn [andb]; [|reflexivity].
+    - destruct (cvE e); reflexivity.
+    - rewrite Dx_app, IH, Dx_enqueue. destruct (cvE e); cbn [andb]; [|reflexivity].
       unfold Dx. cbn [filter]. destruct (covx s); reflexivity.
   Qed.
 
   (* ---- records ------------------------------------------------------------------------ *)
 
-  Lemma passes_slice a b l r bo : passes PU a b l r = Ok bo -> l <= x < r -> bo = apass a b.
+  Lemma passes_slice a b l r bo : passes PU a b l r = Ok bo -> l < r -> bo = apass a b.
   Proof.
     unfold passes, PU, apass, sid; cbn [p_ms2 p_between p_ssid]. intros H Hx.
     destruct (a =? b); [inversion H; reflexivity|].
@@ -181,9 +203,8 @@ Section Slice.
     inversion H; subst; clear H.
     pose proof (covx_inter l0 r0 n0 l1 r1 n1 parent) as Hc.
     destruct (covx (l0, r0, n0) && covx (l1, r1, n1)) eqn:Ec.
-    - assert (Hx : Z.max l0 l1 <= x < Z.min r0 r1).
-      { unfold covx, seg_left, seg_right in Hc; cbn [fst snd] in Hc. apply andb_true_iff in Hc as [H1 H2].
-        apply Z.leb_le in H1. apply Z.ltb_lt in H2. lia. }
+    - assert (Hx : Z.max l0 l1 < Z.min r0 r1).
+      { unfold covx, seg_left, seg_right in Hc; cbn [fst snd] in Hc. apply cov_nonempty in Hc. exact Hc. }
       rewrite (passes_slice _ _ _ _ _ E Hx). destruct (apass n0 n1); [|reflexivity].
       unfold recx. cbn [filter rec_seg snd]. rewrite Hc. reflexivity.
     - destruct bo; [|reflexivity]. unfold recx. cbn [filter rec_seg snd]. rewrite Hc. reflexivity.
@@ -236,7 +257,7 @@ Section Slice.
     rewrite !get_map, Ec, Ep. cbn [bind].
     rewrite (record_ibd_slice _ _ _ _ Er), Dx_queue.
     apply (set_map Dx) in Es. rewrite Dx_app, Dx_queue in Es.
-    destruct (covers e x).
+    destruct (cvE e).
     - rewrite Es. reflexivity.
     - rewrite app_nil_r in Es. rewrite arec_nil_r.
       assert (G : get (map Dx A) (eparent e) = Ok (Dx ps)) by (rewrite get_map, Ep; reflexivity).
@@ -258,14 +279,12 @@ Section Slice.
   Qed.
 
   (* the initial state: every requested node carries itself over the whole genome *)
-  Lemma DX_init L : 0 <= x < L ->
+  Lemma DX_init L : cov 0 L = true ->
     DX (init_amap L ssid) =
     map (fun us => if negb (snd us =? -1) then [fst us] else []) (combine (zrange 0 (length ssid)) ssid).
   Proof.
     intros Hx. unfold DX, init_amap. rewrite map_map. apply map_ext. intros [u v]. cbn [fst snd].
     destruct (negb (v =? -1)); [|reflexivity].
-    unfold Dx, covx, seg_left, seg_right; cbn [filter fst snd].
-    replace (0 <=? x) with true by (symmetry; apply Z.leb_le; lia).
-    replace (x <? L) with true by (symmetry; apply Z.ltb_lt; lia). reflexivity.
+    unfold Dx, covx, seg_left, seg_right; cbn [filter fst snd]. rewrite Hx. reflexivity.
   Qed.
 End Slice.
